@@ -72,16 +72,17 @@ Section Proofs.
   Qed.
 
   (** ** leaves *)
-  Lemma d_geom_e : forall g : geom, d_geom (e_geom g) = Some g.
+  Lemma d_geom_e : forall (pc : bool) (g : geom),
+      (geom_plane_conic g = true -> pc = true) -> d_geom pc (e_geom pc g) = Some g.
   Proof.
-    intros [c|c R k|c R k tol mi cf|c R k tol mi cf|c R k tol mi cf nx ny];
+    intros pc [c [k0|]|c R k|c R k tol mi cf|c R k tol mi cf|c R k tol mi cf nx ny] Hpc;
+      [rewrite (Hpc eq_refl)|destruct pc| | | |];
       unfold M_C19.d_geom, M_C19.e_geom, req, dflt; simpl;
       rewrite ?d_cs_e_cs; simpl; rewrite ?d_nums_e, ?d_nums2_e; reflexivity.
   Qed.
-
-  Lemma safe_geom : forall g : geom, json_safe (e_geom g) = true.
+  Lemma safe_geom : forall (pc : bool) (g : geom), json_safe (e_geom pc g) = true.
   Proof.
-    intros [c|c R k|c R k tol mi cf|c R k tol mi cf|c R k tol mi cf nx ny]; simpl;
+    intros pc [c [k0|]|c R k|c R k tol mi cf|c R k tol mi cf|c R k tol mi cf nx ny]; [destruct pc| | | | |]; simpl;
       rewrite ?safe_cs, ?safe_nums, ?safe_nums2; reflexivity.
   Qed.
 
@@ -138,16 +139,18 @@ Section Proofs.
   Proof. intros [a b]; simpl; eauto. Qed.
 
   Lemma d_surface_e : forall s,
-      (surf_image s = true -> image_from_dict I = true) -> d_surface (e_surface s) = Some s.
+      (surf_image s = true -> image_from_dict I = true) ->
+      (surf_plane_conic s = true -> plane_conic I = true) -> d_surface (e_surface s) = Some s.
   Proof.
-    intros [g post|g pre post st ap co bs rf|g pre ap] Himg;
+    intros [g post|g pre post st ap co bs rf|g pre ap] Himg Hpc;
+      unfold surf_plane_conic in Hpc; simpl in Hpc;
       unfold M_C19.d_surface, M_C19.e_surface, req; simpl.
-    - rewrite d_geom_e. simpl. rewrite d_material_e. reflexivity.
-    - rewrite d_geom_e. simpl. rewrite !d_material_e. simpl.
+    - rewrite (d_geom_e _ _ Hpc). simpl. rewrite d_material_e. reflexivity.
+    - rewrite (d_geom_e _ _ Hpc). simpl. rewrite !d_material_e. simpl.
       rewrite (d_optobj_e _ _ _ _ d_pap_e e_pap_dict). simpl.
       rewrite (d_optobj_e _ _ _ _ d_coating_e e_coating_dict). simpl.
       rewrite (d_optobj_e _ _ _ _ d_bsdf_e e_bsdf_dict). reflexivity.
-    - rewrite (Himg eq_refl). rewrite d_geom_e. simpl. rewrite d_material_e. simpl.
+    - rewrite (Himg eq_refl). rewrite (d_geom_e _ _ Hpc). simpl. rewrite d_material_e. simpl.
       rewrite (d_optobj_e _ _ _ _ d_pap_e e_pap_dict). reflexivity.
   Qed.
 
@@ -290,13 +293,16 @@ Section Proofs.
   Proof.
     intros [ap ft surfs fields fgt waves pol pks sols tele] Hwf Hload.
     unfold M_C19.wf in Hwf. simpl in Hwf.
-    unfold loadable, has_image_class, no_aperture in Hload. simpl in Hload.
+    unfold loadable, has_image_class, no_aperture, has_plane_conic in Hload. simpl in Hload.
+    apply andb_true_iff in Hload. destruct Hload as [Hload Hpc].
     apply andb_true_iff in Hload. destruct Hload as [Himg Hap].
     unfold M_C19.decode, M_C19.to_dict, req. simpl.
     assert (traverse d_surface (map e_surface surfs) = Some surfs) as ->.
-    { apply traverse_map. intros s Hs. apply d_surface_e. intros Hi.
-      destruct (image_from_dict I); [reflexivity|]. rewrite orb_false_r in Himg.
-      apply negb_true_iff in Himg. rewrite (existsb_false_in _ _ _ _ Himg Hs) in Hi. discriminate. }
+    { apply traverse_map. intros s Hs. apply d_surface_e; intros Hi.
+      - destruct (image_from_dict I); [reflexivity|]. rewrite orb_false_r in Himg.
+        apply negb_true_iff in Himg. rewrite (existsb_false_in _ _ _ _ Himg Hs) in Hi. discriminate.
+      - destruct (plane_conic I); [reflexivity|]. rewrite orb_false_r in Hpc.
+        apply negb_true_iff in Hpc. rewrite (existsb_false_in _ _ _ _ Hpc Hs) in Hi. discriminate. }
     assert (traverse (@d_field A c_zero) (map e_field fields) = Some fields) as ->
         by (apply traverse_map; intros; apply d_field_e).
     assert (traverse d_wave_args (map e_wave waves) = Some (map w_args waves)) as ->.
@@ -372,24 +378,26 @@ Section Proofs.
     end.
 
   Definition g_cs (g : geom) : cs :=
-    match g with GPlane _ c | GStd _ c _ _ | GEven _ c _ _ _ _ _ | GPoly _ c _ _ _ _ _ | GCheb _ c _ _ _ _ _ _ _ => c end.
+    match g with GPlane _ c _ | GStd _ c _ _ | GEven _ c _ _ _ _ _ | GPoly _ c _ _ _ _ _ | GCheb _ c _ _ _ _ _ _ _ => c end.
   Definition g_with_cs (c : cs) (g : geom) : geom :=
     match g with
-    | GPlane _ _ => GPlane A c | GStd _ _ R k => GStd A c R k | GEven _ _ R k t m cf => GEven A c R k t m cf
+    | GPlane _ _ ko => GPlane A c ko | GStd _ _ R k => GStd A c R k | GEven _ _ R k t m cf => GEven A c R k t m cf
     | GPoly _ _ R k t m cf => GPoly A c R k t m cf | GCheb _ _ R k t m cf nx ny => GCheb A c R k t m cf nx ny
     end.
   Definition cs_with_pos (x y z : A) (c : cs) : cs := match c with CS _ _ _ _ rx ry rz r => CS A x y z rx ry rz r end.
   (** Optic.set_radius(inf) on a standard surface: back to a Plane on the same coordinate system *)
-  Definition g_flatten (g : geom) : geom := match g with GStd _ c _ _ => GPlane A c | _ => g end.
+  Definition g_flatten (ko : option A) (g : geom) : geom := match g with GStd _ c _ _ => GPlane A c ko | _ => g end.
+  (** Optic.set_conic on a flat surface stores the value as attribute k of the Plane *)
+  Definition g_plane_conic (ko : option A) (g : geom) : geom := match g with GPlane _ c _ => GPlane A c ko | _ => g end.
   (** Optic.set_radius: a plane becomes a standard surface with conic 0 *)
   Definition g_set_radius (v : A) (g : geom) : geom :=
     match g with
-    | GPlane _ c => GStd A c v c_zero | GStd _ c _ k => GStd A c v k | GEven _ c _ k t m cf => GEven A c v k t m cf
+    | GPlane _ c ko => GStd A c v (match ko with Some k => k | None => c_zero end) | GStd _ c _ k => GStd A c v k | GEven _ c _ k t m cf => GEven A c v k t m cf
     | GPoly _ c _ k t m cf => GPoly A c v k t m cf | GCheb _ c _ k t m cf nx ny => GCheb A c v k t m cf nx ny
     end.
   Definition g_set_conic (v : A) (g : geom) : geom :=
     match g with
-    | GPlane _ c => GPlane A c | GStd _ c R _ => GStd A c R v | GEven _ c R _ t m cf => GEven A c R v t m cf
+    | GPlane _ c ko => GPlane A c ko | GStd _ c R _ => GStd A c R v | GEven _ c R _ t m cf => GEven A c R v t m cf
     | GPoly _ c R _ t m cf => GPoly A c R v t m cf | GCheb _ c R _ t m cf nx ny => GCheb A c R v t m cf nx ny
     end.
   Definition g_set_coeff (i : nat) (v : A) (g : geom) : geom :=
@@ -427,7 +435,9 @@ Section Proofs.
   | ESetCoeff (k i : nat) (v : A)             (* set_asphere_coeff *)
   | ESetPos (k : nat) (x y z : A)             (* one vertex position written by set_thickness / solves / image_solve /
                                                  scale_system (which also scales the decentres x, y) *)
-  | ESetFlat (k : nat)                        (* set_radius(inf): a standard surface becomes a Plane again *)
+  | ESetFlat (k : nat) (ko : option A)        (* set_radius(inf): a standard surface becomes a Plane again and keeps
+                                                 its conic when that is not zero *)
+  | ESetPlaneConic (k : nat) (ko : option A)  (* set_conic on a flat surface *)
   | ESetApertureValue (v : A)                 (* scale_system on an EPD aperture *)
   | ESetPhysAperture (k : nat) (rmax rmin : A) (* scale_system on a surface aperture *)
   | EAddPickup (p : pickup A)
@@ -444,7 +454,8 @@ Section Proofs.
                                         (upd k (s_set_post (MIdeal A v c_zero)) (l_surfs l)))
     | ESetCoeff k i v => with_surfs l (upd k (s_geom (g_set_coeff i v)) (l_surfs l))
     | ESetPos k x y z => with_surfs l (upd k (s_geom (fun g => g_with_cs (cs_with_pos x y z (g_cs g)) g)) (l_surfs l))
-    | ESetFlat k => with_surfs l (upd k (s_geom g_flatten) (l_surfs l))
+    | ESetFlat k ko => with_surfs l (upd k (s_geom (g_flatten ko)) (l_surfs l))
+    | ESetPlaneConic k ko => with_surfs l (upd k (s_geom (g_plane_conic ko)) (l_surfs l))
     | ESetApertureValue v =>
         mkLens (match l_ap l with Some (SysAp _ t _ tc) => Some (SysAp A t v tc) | None => None end)
                (l_ftype l) (l_surfs l) (l_fields l) (l_fg_tele l) (l_waves l) (l_pol l) (l_pickups l) (l_solves l) (l_tele l)
@@ -466,16 +477,57 @@ Section Proofs.
   Qed.
   Arguments upd : simpl never.
 
+  (** edits that do not leave a conic on a flat surface *)
+  Definition edit_plain (e : edit) : bool :=
+    match e with ESetFlat _ (Some _) | ESetPlaneConic _ (Some _) => false | _ => true end.
+
+  Lemma existsb_upd_false : forall X (p : X -> bool) (f : X -> X) k l,
+      (forall x, p x = false -> p (f x) = false) -> existsb p l = false -> existsb p (upd k f l) = false.
+  Proof.
+    intros X p f k l H. revert k. induction l as [|x r IH]; intros [|k] E; unfold upd; fold (@upd X); simpl in *;
+      try reflexivity; apply orb_false_iff in E; destruct E as [E1 E2]; apply orb_false_iff; split; auto.
+  Qed.
+
   Lemma edit_keeps_status : forall l e,
-      live_free I (apply_edit l e) = live_free I l /\ loadable I (apply_edit l e) = loadable I l
+      live_free I (apply_edit l e) = live_free I l
+      /\ (loadable I l = true -> plane_conic I = true \/ edit_plain e = true -> loadable I (apply_edit l e) = true)
       /\ l_waves (apply_edit l e) = l_waves l.
   Proof.
-    intros l e. unfold live_free, loadable, has_fresnel, has_image_class, has_polstate, no_aperture.
-    destruct e; simpl; repeat split; try reflexivity;
-      rewrite ?existsb_upd; try reflexivity;
-      try (intros [| | ]; reflexivity);
-      try (intros [g m|g a b st [ap|] co bs rf|g m [ap|]]; reflexivity).
-    destruct (l_ap l) as [[t v0 tc]|]; reflexivity.
+    intros l e. split; [|split].
+    - unfold live_free, has_fresnel, has_polstate.
+      destruct e; simpl; try reflexivity; rewrite ?existsb_upd; try reflexivity;
+        try (intros [| | ]; reflexivity);
+        try (intros [g m|g a b st [ap|] co bs rf|g m [ap|]]; reflexivity).
+    - intros Hl Hp. unfold loadable in *.
+      apply andb_true_iff in Hl. destruct Hl as [Hl H3]. apply andb_true_iff in Hl. destruct Hl as [H1 H2].
+      apply andb_true_iff. split; [apply andb_true_iff; split|].
+      + rewrite <- H1. unfold has_image_class. f_equal. f_equal.
+        destruct e; simpl; try reflexivity; rewrite ?existsb_upd; try reflexivity;
+          try (intros [| | ]; reflexivity);
+          try (intros [g m|g a b st [ap|] co bs rf|g m [ap|]]; reflexivity).
+      + rewrite <- H2. unfold no_aperture. f_equal. f_equal.
+        destruct e; simpl; try reflexivity. destruct (l_ap l) as [[t v0 tc]|]; reflexivity.
+      + destruct (plane_conic I) eqn:Epc; [now rewrite orb_true_r|]. rewrite orb_false_r in *.
+        destruct Hp as [Hp|Hp]; [discriminate|].
+        apply negb_true_iff in H3. apply negb_true_iff. unfold has_plane_conic in *.
+        assert (forall f : geom -> geom,
+                   (forall g, geom_plane_conic g = false -> geom_plane_conic (f g) = false) ->
+                   forall x, surf_plane_conic x = false -> surf_plane_conic (s_geom f x) = false) as Hg.
+        { intros f Hf [g m0|g a b st ap co bs rf|g m0 ap]; unfold surf_plane_conic; simpl; apply Hf. }
+        destruct e; simpl in *; try assumption.
+        * apply existsb_upd_false; [|assumption]. apply Hg. intros [c [k0|]|c R k0|c R k0 t m cf|c R k0 t m cf|c R k0 t m cf nx ny]; simpl; congruence.
+        * apply existsb_upd_false; [|assumption]. apply Hg. intros [c [k0|]|c R k0|c R k0 t m cf|c R k0 t m cf|c R k0 t m cf nx ny]; simpl; congruence.
+        * apply existsb_upd_false; [|apply existsb_upd_false; [|assumption]];
+            intros [g m0|g a b st ap co bs rf|g m0 ap]; unfold surf_plane_conic; simpl; auto.
+        * apply existsb_upd_false; [|assumption]. apply Hg. intros [c [k0|]|c R k0|c R k0 t m cf|c R k0 t m cf|c R k0 t m cf nx ny]; simpl; congruence.
+        * apply existsb_upd_false; [|assumption]. apply Hg. intros [c [k0|]|c R k0|c R k0 t m cf|c R k0 t m cf|c R k0 t m cf nx ny]; simpl; congruence.
+        * destruct ko; [discriminate|]. apply existsb_upd_false; [|assumption]. apply Hg.
+          intros [c [k0|]|c R k0|c R k0 t m cf|c R k0 t m cf|c R k0 t m cf nx ny]; simpl; congruence.
+        * destruct ko; [discriminate|]. apply existsb_upd_false; [|assumption]. apply Hg.
+          intros [c [k0|]|c R k0|c R k0 t m cf|c R k0 t m cf|c R k0 t m cf nx ny]; simpl; congruence.
+        * apply existsb_upd_false; [|assumption].
+          intros [g m0|g a b st [ap|] co bs rf|g m0 [ap|]]; unfold surf_plane_conic; simpl; auto.
+    - destruct e; reflexivity.
   Qed.
 
   Theorem serialisable_after_edits : forall (es : list edit) (l : lens),
@@ -485,15 +537,20 @@ Section Proofs.
     rewrite IH, !to_dict_json_safe_iff. apply edit_keeps_status.
   Qed.
 
+  (** a reloadable lens stays reloadable under every edit history; while Plane does not serialise a conic
+      ([plane_conic I = false]) the history must not leave one on a flat surface *)
   Theorem reloadable_after_edits : forall (es : list edit) (l : lens),
       wf l -> loadable I l = true ->
+      plane_conic I = true \/ forallb edit_plain es = true ->
       decode I (to_dict I (fold_left apply_edit es l)) = Some (fold_left apply_edit es l).
   Proof.
-    intros es. induction es as [|e r IH]; intros l Hwf Hl; cbn [fold_left].
+    intros es. induction es as [|e r IH]; intros l Hwf Hl Hp; cbn [fold_left].
     - now apply decode_to_dict.
     - destruct (edit_keeps_status l e) as [_ [H2 H3]]. apply IH.
       + unfold M_C19.wf in *. now rewrite H3.
-      + now rewrite H2.
+      + apply H2; [assumption|]. destruct Hp as [Hp|Hp]; [now left|right].
+        simpl in Hp. now apply andb_true_iff in Hp.
+      + destruct Hp as [Hp|Hp]; [now left|right]. simpl in Hp. now apply andb_true_iff in Hp.
   Qed.
   End WithImpl.
 
